@@ -476,7 +476,7 @@ def rule_nested_globals(ctx, rep, rid: str) -> None:
             rep.bad(rid, key, "interpreter constructed without being bound to a local", loc)
             continue
         ident = False
-        copy_in = copy_back = False
+        copy_in = copy_back = copy_back_always = False
         for n in f.own_nodes():
             if isinstance(n, ast.Assign) and any(norm(tg) == f"{var}.globals" for tg in n.targets) and norm(n.value).endswith("._globals"):
                 ident = True
@@ -484,8 +484,16 @@ def rule_nested_globals(ctx, rep, rid: str) -> None:
                 copy_in = True
             if isinstance(n, ast.Call) and norm(n.func).endswith("._globals.update") and n.args and norm(n.args[0]) == f"{var}.globals":
                 copy_back = True
-        if ident or (copy_in and copy_back):
-            rep.ok(rid, key, {"how": "identity" if ident else "copy-in/copy-back"})
+                # on every way out? (in the finally of a try around the run)
+                q, child = getattr(n, "_parent", None), n
+                while q is not None and q is not f.node:
+                    if isinstance(q, ast.Try) and any(child is b or any(x is child for x in ast.walk(b)) for b in q.finalbody):
+                        copy_back_always = True
+                    child, q = q, getattr(q, "_parent", None)
+        if ident or (copy_in and copy_back and copy_back_always):
+            rep.ok(rid, key, {"how": "identity" if ident else "copy-in/copy-back in a finally"})
+        elif copy_in and copy_back:
+            rep.bad(rid, key, f"the interpreter built in {f.qual} runs on a COPY of the context's globals that is copied back only when the run returns normally: what the script wrote is lost when it throws (and code it runs through eval() writes to the context's table, not to the copy)", loc)
         else:
             rep.bad(rid, key, f"the interpreter built in {f.qual} does not run on the context's globals: definitions made there are lost (or never visible)", loc)
 
